@@ -78,3 +78,22 @@ Proof.
   pose proof Adm as (Hk & Hn & _).
   apply (solver_hyp (mkPP k t c0 n) s' tau y l r); auto. cbn. lia.
 Qed.
+
+(* polynomial reproduction with the coefficient vector given by Marsden's identity: no hypothesis
+   other than a non-singular collocation matrix *)
+Lemma poly_marsden_R k n t (c0 : option (list R)) (s' : @ppspline R R) tau y l r (q : list (R * R)) :
+  admissible k n t ->
+  csolve xmul_num (mkPP k t c0 n) tau y l r false = Ok s' ->
+  (forall B, bsplmatrix (mkPP k t c0 n) tau l r = Ok B -> nonsingular n B) ->
+  (forall jx x, nth_error tau jx = Some x -> tn t (k - 1) <= x <= tn t n) ->
+  length y = length tau ->
+  (forall jx x, nth_error tau jx = Some x ->
+     nth_error y jx = Some (Derive_n (shifted_powers k q) (row_m l r (length tau) jx) x)) ->
+  forall x m, tn t (k - 1) <= x <= tn t n ->
+    ppdnev_single xmul_num s' x m = Ok (Derive_n (shifted_powers k q) m x).
+Proof.
+  intros Adm HS Hns.
+  apply (poly_partial_R k n t c0 s' tau y l r (shifted_powers k q) (marsden_coeffs k n t q) Adm HS Hns).
+  - unfold marsden_coeffs. rewrite map_length, seq_length. reflexivity.
+  - intros j Hj Hs x. apply marsden_reproduces; auto.
+Qed.
